@@ -48,7 +48,8 @@ Sound(c) ==
                 \/ a.pos_nm > TOL_NM
                 \/ (IF FiveDof(c) THEN a.axis_nrad > TOL_NRAD ELSE a.rot_nrad > TOL_NRAD)
   IN (IF \E i \in 1..Len(c.answers) : bad(c.answers[i]) THEN {"C01:answer-misses-pose"} ELSE {})
-     \cup (IF c.entry = "inverse" /\ c.dof = 6 /\
+     \* (a parallelogram re-couples a joint after the leaf normalised it: the range clause is the leaf's)
+     \cup (IF c.entry = "inverse" /\ c.dof = 6 /\ ~c.pgram /\
               \E i \in 1..Len(c.answers) : \E j \in 1..6 : Abs(c.answers[i].q[j]) > HALF_AU + 1
            THEN {"C01:plain-inverse-not-normalised"} ELSE {})
      \cup (IF (~c.pose_ok \/ c.reach = "no") /\ c.answers # <<>> THEN {"C01:answers-for-impossible-pose"} ELSE {})
